@@ -10,6 +10,8 @@ structure RSt where
   pool : Option Pool
   selfRole : UInt8
   peers : List PeerInfo
+  proles : List UInt8 := []   -- role flags the node keeps for each persistent peer
+  rver : Nat := 0             -- version of the allowed-roots set (manager.SetRole)
 
 def b01 (b : Bool) : String := if b then "1" else "0"
 
@@ -102,23 +104,13 @@ def stepOld (s : St) (toks : List String) : St × String :=
     | _, _, _, _, _, _, _, _, _, _ => (s, "bad-op")
   | _ => (s, "bad-op")
 
-def step (s : RSt) (toks : List String) : RSt × String :=
-  match toks with
-  | ["reset"] => ({ pool := none, selfRole := 0, peers := [] }, "ok")
-  | ["rnode", nb, bl, role] =>
-    match nb.toNat?, bl.toNat?, role.toNat? with
-    | some n, some l, some r =>
-      if n = 0 ∨ n ≥ 256 ∨ l ≥ 65536 ∨ r ≥ 256 then (s, "bad-op")
-      else ({ pool := some (newPool n l), selfRole := UInt8.ofNat r, peers := [] }, "ok")
-    | _, _, _ => (s, "bad-op")
-  | ["peer", id, ct, hp] =>
-    match s.pool, id.toNat?, ct.toNat?, bool? hp with
-    | some _, some i, some c, some h =>
-      if i = 0 ∨ i ≥ 65536 ∨ c ≥ 7 ∨ s.peers.any (fun p => p.id == idBytes i) then (s, "bad-op")
-      else ({ s with peers := s.peers ++ [{ id := idBytes i, connType := c, hasProto := h, known := [] }] },
-            s!"ok {s.peers.length}")
-    | _, _, _, _ => (s, "bad-op")
-  | ["rpkt", idx, role, src, dest, ttl, hash, rel] =>
+def mapAllNat : List String → Option (List Nat)
+  | [] => some []
+  | x :: xs => match x.toNat?, mapAllNat xs with
+    | some n, some l => some (n :: l)
+    | _, _ => none
+
+def rpktStep (s : RSt) (idx role src dest ttl hash rel : String) : RSt × String :=
     match s.pool, idx.toNat?, role.toNat?, src.toNat?, dest.toNat?, ttl.toNat?, hash.toNat?, bool? rel with
     | some p, some ix, some ro, some sr, some de, some tt, some hv, some rl =>
       match s.peers[ix]? with
@@ -132,9 +124,50 @@ def step (s : RSt) (toks : List String) : RSt × String :=
           let r := nodeStep { pool := p, selfRole := s.selfRole, peers := s.peers } ix e rl
           let ids := sortNat (r.2.2.map idNum)
           let rs := if ids.isEmpty then "-" else ",".intercalate (ids.map toString)
-          ({ s with pool := some r.1.pool, peers := r.1.peers }, s!"{outcomeStr r.2.1} {rs}")
+          ({ s with pool := some r.1.pool, peers := r.1.peers, proles := s.proles.set ix (UInt8.ofNat ro) },
+            s!"{outcomeStr r.2.1} {rs}")
       | none => (s, "bad-op")
     | _, _, _, _, _, _, _, _ => (s, "bad-op")
+
+def step (s : RSt) (toks : List String) : RSt × String :=
+  match toks with
+  | ["reset"] => ({ pool := none, selfRole := 0, peers := [] }, "ok")
+  | ["rnode", nb, bl, role] =>
+    match nb.toNat?, bl.toNat?, role.toNat? with
+    | some n, some l, some r =>
+      if n = 0 ∨ n ≥ 256 ∨ l ≥ 65536 ∨ r ≥ 256 then (s, "bad-op")
+      else ({ pool := some (newPool n l), selfRole := UInt8.ofNat r, peers := [], proles := [], rver := 0 }, "ok")
+    | _, _, _ => (s, "bad-op")
+  | ["peer", id, ct, hp] =>
+    match s.pool, id.toNat?, ct.toNat?, bool? hp with
+    | some _, some i, some c, some h =>
+      if i = 0 ∨ i ≥ 65536 ∨ c ≥ 7 ∨ s.peers.any (fun p => p.id == idBytes i) then (s, "bad-op")
+      else ({ s with peers := s.peers ++ [{ id := idBytes i, connType := c, hasProto := h, known := [] }],
+                     proles := s.proles ++ [0] },
+            s!"ok {s.peers.length}")
+    | _, _, _, _ => (s, "bad-op")
+  | ["setval", ver, ids] =>
+    -- manager.SetRole(version, RoleValidator, ids): ignored unless the version is newer; then
+    -- exactly the connected peers (and the node itself) in the new set carry the root flag
+    match s.pool, ver.toNat?, mapAllNat (if ids = "_" then [] else ids.splitOn ",") with
+    | some _, some v, some l =>
+      if l.any (· ≥ 65536) then (s, "bad-op")
+      else if v ≤ s.rver then (s, "ok")
+      -- ClearAndAdd = Clear (no onUpdate) + Merge (onUpdate only if something was added): an
+      -- EMPTY new set is stored but the role flags are not touched (transcribed)
+      else if l.isEmpty then ({ s with rver := v }, "ok")
+      else
+        let flag := fun (id : Nat) (r : UInt8) => if l.contains id then r ||| 2 else r &&& 0xFD
+        let proles := (s.peers.zip s.proles).map (fun pr => flag (idNum pr.1.id) pr.2)
+        ({ s with rver := v, proles := proles, selfRole := flag 0 s.selfRole }, "ok")
+    | _, _, _ => (s, "bad-op")
+  | ["rpkt2", idx, src, dest, ttl, hash, rel] =>
+    match idx.toNat? with
+    | some ix => match s.proles[ix]? with
+      | some ro => rpktStep s idx (toString ro.toNat) src dest ttl hash rel
+      | none => (s, "bad-op")
+    | none => (s, "bad-op")
+  | ["rpkt", idx, role, src, dest, ttl, hash, rel] => rpktStep s idx role src dest ttl hash rel
   | ["cput", hash, g] =>
     -- g concurrent Put calls with the same hash: Put is atomic (mutex), so the calls are
     -- serialised in some order: the first decides, the others find the hash
